@@ -1,6 +1,7 @@
 package gen
 
 import (
+	"strconv"
 	"fmt"
 	"strings"
 
@@ -161,6 +162,19 @@ func query(t *rapid.T, ck *clock, db, sql string) *hist.Query {
 	}
 	if rapid.IntRange(0, 2).Draw(t, "q_vars") == 0 {
 		q.Vars = StatusVars(t, false)
+	}
+	if rapid.IntRange(0, 3).Draw(t, "q_posthdr") == 0 {
+		q.Thread = rapid.Uint32().Draw(t, "q_thread")
+		q.Exec = rapid.SampledFrom([]uint32{0, 1, 3600, 1<<31 - 1, 1<<32 - 1}).Draw(t, "q_exec")
+	}
+	switch strings.ToLower(sql) {
+	case "begin", "commit", "rollback":
+	default:
+		// a statement that failed half way on the master is logged with the error it ended with
+		// (DROP TABLE t1, t_missing: 1051); it is part of the binlog like any other
+		if rapid.IntRange(0, 7).Draw(t, "q_errcode") == 0 {
+			q.ErrCode = rapid.SampledFrom([]uint16{1051, 1062, 1146, 1317, 1, 65535}).Draw(t, "q_err")
+		}
 	}
 	return q
 }
@@ -386,7 +400,7 @@ func Config(t *rapid.T) hist.Cfg {
 	}
 	c.GTID57 = rapid.Bool().Draw(t, "gtid57")
 	if rapid.Bool().Draw(t, "sv_std") {
-		c.ServerVersion = rapid.SampledFrom([]string{"5.6.33-log", "5.7.30-log", "8.0.28", "5.5.62", "10.1.48-MariaDB", ""}).Draw(t, "server_version")
+		c.ServerVersion = rapid.SampledFrom([]string{"5.6.33-log", "5.7.30-log", "8.0.28", "5.5.62", "10.1.48-MariaDB", "", "5.5.5-10.4.13-MariaDB-log", "5.5.5-", "5.5.5-m3-log", "8.0.36-0ubuntu0.22.04.1", "5.7.44-48-log"}).Draw(t, "server_version")
 	} else {
 		n := boundaryOr(t, "sv_len", 0, 50, 0, 1, 49, 50)
 		c.ServerVersion = strings.ReplaceAll(string(refenc.Blob{K: 7, S: rapid.Uint32().Draw(t, "sv_s"), N: n}.Bytes()), "\x00", "x")
@@ -409,6 +423,10 @@ func Config(t *rapid.T) hist.Cfg {
 
 // History draws a complete history.
 func History(t *rapid.T, o HistOpt) *hist.History {
+	if strconv.IntSize == 32 {
+		// a 32-bit process has 3 GiB of address space: the scale shapes stay with the 64-bit shards
+		o.Scale, o.ScaleTx, o.ScaleRows, o.ManyTables = false, false, false, 0
+	}
 	h := &hist.History{}
 	if o.FixedCfg != nil {
 		h.Cfg = *o.FixedCfg
@@ -530,7 +548,11 @@ func History(t *rapid.T, o HistOpt) *hist.History {
 							}
 						}
 						if small {
-							u.Items[j].Repeat = rapid.SampledFrom([]int{4, 11, 21, 41, 1100}).Draw(t, "long_tx_repeat")
+							reps := []int{4, 11, 21, 41, 1100, 1100}
+							if o.Scale {
+								reps = append(reps, 33000) // more than 2^16 events in one transaction
+							}
+							u.Items[j].Repeat = rapid.SampledFrom(reps).Draw(t, "long_tx_repeat")
 						}
 						break
 					}
